@@ -337,9 +337,9 @@ namespace nmtools::view
                 // this slice operates directly with the underlying array
                 // which may be pointer
                 if constexpr (meta::is_pointer_v<array_type>) {
-                    return apply_slice(*array,slices);
+                    return view::apply_slice(*array,slices);
                 } else {
-                    return apply_slice(array, slices);
+                    return view::apply_slice(array, slices);
                 }
             }();
             // NOTE: use view::flatten to avoid ambiguous call because of ADL
